@@ -231,3 +231,15 @@ REPLY_PRODUCERS = ( ( 'Logix', 0xCC ), ( 'Logix', 0xD2 ), ( 'Logix', 0xCD ), ( '
                     ( 'Connection_Manager', 0xD4 ), ( 'Connection_Manager', 0xDB ), ( 'Connection_Manager', 0xCE ),
                     ( 'Object', 0x8E ), ( 'Object', 0x90 ), ( 'Object', 0x81 ), ( 'Object', 0x83 ) )
 MESSAGE_LAYOUTS[( 'service', 'Connection_Manager', 0xDB )] = MESSAGE_LAYOUTS[( 'service', 'Connection_Manager', 0xD4 )]
+
+
+# ---------------------------------------------------------------------------------------- statuses under which a reply carries its data
+# 1756-PM020 ( Logix 5000 Data Access ): Read Tag and Read Tag Fragmented replies carry tag type and data under general status 0x00 and
+# under 0x06 ( "the data requested would not fit in the response packet ... partial data transferred": the client continues at the offset it
+# has received ); CIP Vol 1, Appendix A, Multiple Service Packet: the offsets and member replies follow under 0x00 and under 0x1E
+# ( "embedded service error" ).  Key: the function that builds the reply grammar, the producer and its reply-service constant.
+STATUS_WITH_DATA = {
+    ( 'server/enip/logix.py', '__read_tag_reply', 'Logix.produce', 'RD_TAG_RPY' ):          ( 0x00, 0x06 ),
+    ( 'server/enip/logix.py', '__read_frag_reply', 'Logix.produce', 'RD_FRG_RPY' ):         ( 0x00, 0x06 ),
+    ( 'server/enip/device.py', '__multiple_reply', 'Message_Router.produce', 'MULTIPLE_RPY' ): ( 0x00, 0x1E ),
+}
